@@ -48,7 +48,7 @@ SCRATCH_BASE = "/dev/shm" if os.path.isdir("/dev/shm") and os.access("/dev/shm",
 def gen_case(run_seed: int, tier: str) -> dict[str, Any]:
     w = sub_rng(run_seed, "workload")
     tree = c17model.gen_tree(w)
-    settings = c17model.gen_settings(w, tree["limit"])
+    settings = c17model.gen_settings(w, tree["limit"], tree["entries"])
     args = c17model.gen_args(w, tree["entries"])
     k = sub_rng(run_seed, "knobs")
     K = 4 if tier == "quick" else 8
@@ -269,6 +269,12 @@ def _run_case(case: dict[str, Any], scratch: str, want_trace: bool) -> dict[str,
         for p in sorted(must_a - got):
             _, reason, kind = exp_a[p]
             hint = "anchored-flowmarkignore-rule-matches-basename" if any(c17model.fnmatch.fnmatchcase(os.path.basename(p), b) for b in anchored_basenames) else "unexplained"
+            if hint == "unexplained":
+                # a directory on the way carries the *name* of an anchored user exclude pattern's last component
+                anch = [os.path.basename(r["pat"]) for r in ref.exclude_rules if r["anchored"] and not r.get("neg")]
+                comps = os.path.relpath(p, scratch).split("/")[1:-1]
+                if any(c17model.fnmatch.fnmatchcase(c, b) for c in comps for b in anch):
+                    hint = "anchored-exclude-pattern-matches-name"
             viol(f"C17/missed/{kind}/{hint}", {"path": os.path.relpath(p, scratch), "arg": a, "settings": case["settings"]}, sch0, [a])
 
     # ---- all arguments together under K listing-order / argument-order schedules
